@@ -218,7 +218,7 @@ def run(r):
              len(set(by_key) | set(by_key_c)), len(skipped) + len(cskipped)))
     r.coverage["evaluations"] = tot.get("cases", 0) + ctot.get("cases", 0) + len(cases) + len(xs)
     r.coverage["distinct_nontrivial"] = tot.get("marked", 0)
-    r.coverage["rule"] = ("every search starts by replaying the regression corpus (84 former failing inputs, on the stack and as a bound constant); "
+    r.coverage["rule"] = ("every search starts by replaying the regression corpus (86 former failing inputs, on the stack and as a bound constant); "
                           "then case i is one of: (i%12==8) un-/anti-/under- forms of the structural primitives on arrays WITHOUT rows of every type and shape "
                           "([0],[0 3],[2 0],[0 0],[1 0 2],...) and ordinary ones, with index lists / fills; (i%6==5) structural primitives (select weighted, pick, take, "
                           "drop, rotate, keep, rerank, orient, windows, reshape; plain, under, rows, reversed) on arrays marked at run time (sort, sort-down, "
